@@ -261,6 +261,17 @@ func replayDet(line []byte, a *Acc) {
 					one("det:sink-error", fmt.Sprintf("JsonWriter on a %s sink returned %v", mode, e))
 					return
 				}
+				// the Raw forms return what Json / JsonIndent return, whatever the sink does
+				fw = &failWriter{mode: mode}
+				if r0, e := m.JsonWriterRaw(fw); e != errSink || string(r0) != l.J {
+					one("det:sink-raw", fmt.Sprintf("JsonWriterRaw on a %s sink returned (%q, %v), Json() gives %q", mode, r0, e, l.J))
+					return
+				}
+				fw = &failWriter{mode: mode}
+				if r0, e := m.JsonIndentWriterRaw(fw, "", " "); e != errSink || string(r0) != string(ji) {
+					one("det:sink-raw-indent", fmt.Sprintf("JsonIndentWriterRaw on a %s sink returned (%q, %v), JsonIndent() gives %q", mode, r0, e, ji))
+					return
+				}
 			}
 			// MapSeq: sequence order, deterministic
 			seq, serr := mxj.NewMapXmlSeq(b)
